@@ -328,8 +328,12 @@ pub async fn handle_srt_packet(
             //
             // The override picks only among links normal selection could have
             // picked (not timed out, not stall-gated; `select_connection_idx`
-            // above has just refreshed the gate flags).
+            // above has just refreshed the gate flags), and it is an
+            // enhanced-mode feature: classic mode keeps no quality signal (every
+            // cache sits at its default), so there the override would collapse to
+            // "lowest-numbered connected link" and break the reference algorithm.
             if seq.is_some()
+                && !config_snap.mode.is_classic()
                 && (critical_window.is_critical_now(packet_time_ms)
                     || srtla_protocol::is_srt_data_retransmit(pkt))
                 && let Some(best_idx) = srtla_core::priority::select_best_quality_eligible_idx(
